@@ -389,6 +389,12 @@ static int same_bits(a_real a, a_real b)
     size_t const n = sizeof(a_real) == 16 ? 10 : sizeof(a_real);
     return !memcmp(&a, &b, n);
 }
+/* RECORDED, NOT JUDGED.  That a plan is bitwise the same whatever the context held before is a property of the pinned code (every success path
+ * stores all fields from the arguments), not something C14 states: a generator that warm-starts its search from the previous plan, or keeps a
+ * correct cache, would differ in the last bits and still satisfy every clause of the property.  The request planned on the used context is judged by
+ * all ordinary clauses against ITS limits (that is what catches seeded change C14-J); differences to the fresh-context twin are counted in
+ * "twin-differs-from-fresh-context(not judged)" so that drift is visible in the evidence. */
+#define TWIN_NOTE(key, ...) ((void)(key), vf_count_dyn("twin-differs-from-fresh-context(not judged)", 1))
 static void twin_fresh(prof const *q, a_real ret)
 {
     static char const *const fld[2][14] = {{"t", "p0", "p1", "v0", "v1", "vc", "ta", "td", "pa", "pd", "ac", "de", "", ""}, {"t", "tv", "ta", "td", "taj", "tdj", "p0", "p1", "v0", "v1", "vm", "jm", "am", "dm"}};
@@ -405,13 +411,13 @@ static void twin_fresh(prof const *q, a_real ret)
     VF_COUNT("w-replan-readback-twin-fresh-context");
     if (!same_bits(ret, ret2))
     {
-        vf_viol(key, "%s returned %La (%.21Lg) on the context that held the plan the arguments were read back from, but %La (%.21Lg) on a fresh garbage-filled context", req_text(q, rq, sizeof(rq)), (L)ret, (L)ret, (L)ret2, (L)ret2);
+        TWIN_NOTE(key, "%s returned %La (%.21Lg) on the context that held the plan the arguments were read back from, but %La (%.21Lg) on a fresh garbage-filled context", req_text(q, rq, sizeof(rq)), (L)ret, (L)ret, (L)ret2, (L)ret2);
         bad = 1;
     }
     for (int i = 0; i < nf && !bad; ++i)
     {
         if (same_bits(fu[i], ff[i])) { continue; }
-        vf_viol(key, "%s (duration %La): recorded field %s = %La (%.21Lg) on the context that held the plan the arguments were read back from, but %La (%.21Lg) when planned on a fresh garbage-filled context",
+        TWIN_NOTE(key, "%s (duration %La): recorded field %s = %La (%.21Lg) on the context that held the plan the arguments were read back from, but %La (%.21Lg) when planned on a fresh garbage-filled context",
                 req_text(q, rq, sizeof(rq)), (L)ret, fld[g][i], (L)fu[i], (L)fu[i], (L)ff[i], (L)ff[i]);
         bad = 1;
     }
@@ -420,7 +426,7 @@ static void twin_fresh(prof const *q, a_real ret)
         a_real const x = i < q->nb ? q->b[i] : ret * (a_real)(2 * (i - q->nb) + 1) / 16;
         samp const a = eval_at(q, x), b = eval_at(&f, x);
         if (same_bits(a.p, b.p) && same_bits(a.v, b.v) && same_bits(a.a, b.a) && same_bits(a.j, b.j)) { continue; }
-        vf_viol(key, "%s: pos/vel/acc/jer at x=%La are %La %La %La %La on the used context, but %La %La %La %La on a fresh context with bitwise the same fields",
+        TWIN_NOTE(key, "%s: pos/vel/acc/jer at x=%La are %La %La %La %La on the used context, but %La %La %La %La on a fresh context with bitwise the same fields",
                 req_text(q, rq, sizeof(rq)), (L)x, (L)a.p, (L)a.v, (L)a.a, (L)a.j, (L)b.p, (L)b.v, (L)b.a, (L)b.j);
         bad = 1;
     }
